@@ -107,12 +107,14 @@ def plan(tier):
                 ('sweep1b', len(BASES) * SLOT1),
                 ('sweep2_full', sum(_full2_size(b) for b in _full2_bases())),
                 ('base_random', len(BASES) * 6000),
+                ('stall', 40000),
                 ('sweep2', 60000),
                 ('random', 150000),
                 ('big', 3000)]
     return [('sweep1', len(BASES) * SLOT1),
             ('sweep1b', len(BASES) * SLOT1),
             ('base_random', len(BASES) * 250),
+            ('stall', 1500),
             ('sweep2', 3000 if q else 200000),
             ('random', 2500 if q else 150000),
             ('big', 60 if q else 3000)]
@@ -151,6 +153,29 @@ def make_case(family, i, rng, tier):
             case['schedule'] = {'kind': 'pct', 'seed': rng.getrandbits(32),
                                 'd': rng.choice([2, 3, 4]),
                                 'horizon': rng.choice([150, 400, 800])}
+        return case
+    if family == 'stall':
+        # one sender's sendall blocks half-way (the peer stopped reading) for
+        # seconds to a minute of simulated time while the others, and the
+        # event loop's own pings / pongs, want to write; directly or through
+        # an HTTP proxy
+        names = ['text_vs_text', 'two_each', 'three_threads', 'vs_auto_pong',
+                 'vs_auto_ping', 'big_vs_small', 'compressed_takeover']
+        nm = names[i % len(names)]
+        case = copy.deepcopy([b for b in BASES if b['name'] == nm][0])
+        case['stall'] = {'tid': rng.randrange(1, len(case['threads']) + 1),
+                         'k': 0, 'us': rng.choice([900001, 5500001, 12000001,
+                                                   40000001, 65000001])}
+        case['eof_after'] = 120000000
+        case['max_steps'] = 400000
+        case['name'] = nm + '+stall'
+        case['via_proxy'] = rng.random() < 0.4
+        if rng.random() < 0.5:
+            case['schedule'] = {'kind': 'preempt',
+                                'points': [[1, case['stall']['tid']]]}
+        else:
+            case['schedule'] = {'kind': 'random', 'seed': rng.getrandbits(32),
+                                'stay': rng.choice([0.7, 0.9, 0.97])}
         return case
     if family == 'sweep2_full':
         for b in _full2_bases():
@@ -228,7 +253,7 @@ def execute(case):
     if tr.escaped:
         res.bad('C11/%s/exception_in_event_loop' % base, '%s %s' % tr.escaped)
     st = w.socks[-1]
-    wire = oracle.Wire(st)
+    wire = oracle.Wire(st, 2 if case.get('via_proxy') else 1)
     sig = T.site_signature(sched)
     # ---- whole frames only
     if wire.incomplete:
